@@ -8,8 +8,12 @@ import (
 	"go/ast"
 	"go/token"
 	"go/types"
+	"os"
+	"path/filepath"
+	"runtime"
 	"sort"
 	"strings"
+	"sync"
 )
 
 type Obligation struct {
@@ -31,6 +35,7 @@ type Obligation struct {
 	// expected to fail (canary)
 	Canary bool
 	File   string
+	FileF  string // relevance-filtered variant of the script
 	Size   int
 	Known  bool
 }
@@ -64,6 +69,10 @@ type Exec struct {
 	modMemo     map[*FuncInfo]*ModSet
 	prepared    map[*FuncInfo]bool
 	marks       map[string]*State
+	noHoudini   bool
+	probeDepth  int
+	autoInvs    []string
+	houdiniSeq  int
 	sentinels   []string
 }
 
@@ -169,15 +178,16 @@ func (ex *Exec) execBlock(st *State, stmts []ast.Stmt) Outcomes {
 		}
 		_, isFor := s.(*ast.ForStmt)
 		_, isRange := s.(*ast.RangeStmt)
-		if len(out.falls) > 1 && (isFor || isRange || len(out.falls) > maxPaths) {
-			out.falls = []*State{mergeMany(out.falls, 1<<30)}
+		_, _ = isFor, isRange
+		if len(out.falls) > maxPaths {
+			out.falls = mergeClosest(out.falls, maxPaths)
 		}
 		var nf []*State
 		for _, cur := range out.falls {
 			o := ex.execStmt(cur, s)
-			nf = append(nf, o.falls...)
-			out.brk = append(out.brk, o.brk...)
-			out.cont = append(out.cont, o.cont...)
+			nf = append(nf, ex.splitPending(o.falls)...)
+			out.brk = append(out.brk, ex.splitPending(o.brk)...)
+			out.cont = append(out.cont, ex.splitPending(o.cont)...)
 		}
 		out.falls = nf
 	}
@@ -852,6 +862,7 @@ func (ex *Exec) runLoop(st *State, ls loopShape) Outcomes {
 	var invs []*Clause
 	if spec != nil {
 		invs = spec.Invs
+		ex.applyUses(st, spec.Uses, "entry", pos)
 	}
 	for i, inv := range invs {
 		c := ex.specCtxAt(st, pos)
@@ -860,7 +871,13 @@ func (ex *Exec) runLoop(st *State, ls loopShape) Outcomes {
 	}
 	// havoc
 	entryCtr := st.ctr
-	_ = entryCtr
+	var entrySnap map[string]*Term
+	if ls.mod != nil {
+		entrySnap = map[string]*Term{}
+		for _, h := range ls.mod.heapNames() {
+			entrySnap[h] = st.heapGet(h, ls.mod.heaps[h])
+		}
+	}
 	ex.havocFor(st, ls.mod, fmt.Sprintf("L%d", ord))
 	for _, v := range ls.extraV {
 		if _, ok := st.vars[v]; ok && !ex.boxed[v] {
@@ -891,28 +908,58 @@ func (ex *Exec) runLoop(st *State, ls loopShape) Outcomes {
 		c := ex.specCtxAt(st, pos)
 		st.assume(ex.evalSpecBool(c, inv.E, fmt.Sprintf("loop %d invariant %d", ord, i+1)))
 	}
+	// automatic frame invariants (Houdini: kept only when proved inductive)
+	if entrySnap != nil {
+		ex.houdiniFrames(st, entrySnap, entryCtr, ls, spec, ghosts, pos, ord)
+	}
 	var dec0 *Term
 	if spec != nil && spec.Decreases != nil {
 		dec0 = ex.specCtxAt(st, pos).evalTerm(spec.Decreases)
 	}
-	headGhost := map[string]Val{}
-	for k, v := range st.ghost {
-		headGhost[k] = v
+	nb := len(st.facts)
+	exitSt, backs, brks := ex.loopIter(st, ls, ghosts, pos)
+	for _, back := range backs {
+		if spec != nil {
+			ex.applyUses(back, spec.Uses, "step", pos)
+		}
+		for i, inv := range invs {
+			c := ex.specCtxAt(back, pos)
+			t := ex.evalSpecBool(c, inv.E, fmt.Sprintf("loop %d invariant %d", ord, i+1))
+			ex.obligNoAssume(back, "inv-step", ls.stmt, fmt.Sprintf("loop%d:%s", ord, clauseName(inv, i)), t)
+		}
+		if dec0 != nil {
+			d1 := ex.specCtxAt(back, pos).evalTerm(spec.Decreases)
+			ex.obligNoAssume(back, "decreases", ls.stmt, fmt.Sprintf("loop%d", ord), And(Ge(dec0, IntLit(0)), Lt(d1, dec0)))
+		}
 	}
+	_ = nb
+	res := Outcomes{}
+	if exitSt != nil {
+		res.falls = append(res.falls, exitSt)
+	}
+	res.falls = append(res.falls, brks...)
+	return res
+}
+
+// loopIter runs one arbitrary iteration from the head state: returns the exit
+// state (condition false), the states at the back edge (after ghost updates and
+// the post statement) and the states leaving through break.
+func (ex *Exec) loopIter(st *State, ls loopShape, ghosts []*GhostVar, pos token.Pos) (exitSt *State, backs []*State, brks []*State) {
 	nb := len(st.facts)
 	cond := True
 	if ls.cond != nil {
 		cond = ls.cond(st)
 	}
-	exitSt := st.clone()
-	exitSt.assume(Not(cond))
+	if cond != True {
+		exitSt = st.clone()
+		exitSt.assume(Not(cond))
+	}
 	bodySt := st
 	bodySt.assume(cond)
 	var outs Outcomes
 	if cond != False {
 		outs = ls.body(bodySt)
 	}
-	var backs []*State
 	backs = append(backs, outs.falls...)
 	backs = append(backs, outs.cont...)
 	if len(backs) > maxPaths {
@@ -931,24 +978,189 @@ func (ex *Exec) runLoop(st *State, ls loopShape) Outcomes {
 		if ls.atHead != nil {
 			ls.atHead(back, false)
 		}
-		for i, inv := range invs {
-			c := ex.specCtxAt(back, pos)
-			t := ex.evalSpecBool(c, inv.E, fmt.Sprintf("loop %d invariant %d", ord, i+1))
-			ex.oblig(back, "inv-step", ls.stmt, fmt.Sprintf("loop%d:%s", ord, clauseName(inv, i)), t)
+	}
+	return exitSt, backs, outs.brk
+}
+
+type execSnap struct {
+	nObls     int
+	oblCount  map[string]int
+	nRets     int
+	callSeq   int
+	notes     map[string]bool
+	ext       map[string]bool
+	lastGhost map[string]map[string]*GhostInst
+	ghosts    map[string]*GhostInst
+	nAuto     int
+}
+
+func (ex *Exec) snapshot() *execSnap {
+	s := &execSnap{nObls: len(ex.Obls), oblCount: map[string]int{}, nRets: len(ex.retStates), callSeq: ex.callSeq,
+		notes: map[string]bool{}, ext: map[string]bool{}, lastGhost: map[string]map[string]*GhostInst{}, ghosts: map[string]*GhostInst{}}
+	for k, v := range ex.oblCount {
+		s.oblCount[k] = v
+	}
+	for k, v := range ex.notes {
+		s.notes[k] = v
+	}
+	for k, v := range ex.assumedExt {
+		s.ext[k] = v
+	}
+	for k, v := range ex.lastGhost {
+		s.lastGhost[k] = v
+	}
+	for k, v := range ex.ghosts {
+		s.ghosts[k] = v
+	}
+	s.nAuto = len(ex.autoInvs)
+	return s
+}
+
+func (ex *Exec) restore(s *execSnap) {
+	ex.Obls = ex.Obls[:s.nObls]
+	ex.oblCount = s.oblCount
+	ex.retStates = ex.retStates[:s.nRets]
+	ex.callSeq = s.callSeq
+	ex.notes = s.notes
+	ex.assumedExt = s.ext
+	ex.lastGhost = s.lastGhost
+	ex.ghosts = s.ghosts
+	ex.autoInvs = ex.autoInvs[:s.nAuto]
+}
+
+type autoCand struct {
+	name string
+	at   func(st *State) *Term
+}
+
+// houdiniFrames: for every heap array havocked wholesale by the loop, the
+// candidate "locations allocated before the loop keep their entry value" is
+// tried; the candidates that are jointly inductive are assumed at the head.
+func (ex *Exec) houdiniFrames(st *State, entry map[string]*Term, entryCtr *Term, ls loopShape, spec *LoopSpec, ghosts []*GhostVar, pos token.Pos, ord int) {
+	if ex.noHoudini || ex.probeDepth > 1 {
+		return
+	}
+	var cands []autoCand
+	var names []string
+	for h := range entry {
+		names = append(names, h)
+	}
+	sort.Strings(names)
+	for _, h := range names {
+		h := h
+		e := entry[h]
+		cur := st.heap[h]
+		if cur == nil || cur == e {
+			continue
 		}
-		if dec0 != nil {
-			d1 := ex.specCtxAt(back, pos).evalTerm(spec.Decreases)
-			ex.oblig(back, "decreases", ls.stmt, fmt.Sprintf("loop%d", ord), And(Ge(dec0, IntLit(0)), Lt(d1, dec0)))
+		if cur.kind == 0 && cur.op == "store" {
+			continue // location-precise havoc already
+		}
+		cands = append(cands, autoCand{name: "frame:" + describeHeapName(h), at: func(s *State) *Term {
+			r := BVar("r", SInt)
+			c := s.heapGet(h, heapSorts[h])
+			return Forall([]*Term{r}, Implies(Lt(r, entryCtr), Eq(Select(c, r), Select(e, r))), []*Term{Select(c, r)})
+		}})
+		if ex.pre != nil && ex.pre.ctr != entryCtr {
+			// weaker variant: locations that existed when the function was entered
+			c0 := ex.pre.ctr
+			cands = append(cands, autoCand{name: "frame0:" + describeHeapName(h), at: func(s *State) *Term {
+				r := BVar("r", SInt)
+				c := s.heapGet(h, heapSorts[h])
+				return Forall([]*Term{r}, Implies(Lt(r, c0), Eq(Select(c, r), Select(e, r))), []*Term{Select(c, r)})
+			}})
 		}
 	}
-	res := Outcomes{}
-	var exits []*State
-	if cond != True {
-		exits = append(exits, exitSt)
+	if len(cands) == 0 {
+		return
 	}
-	exits = append(exits, outs.brk...)
-	res.falls = exits
-	return res
+	active := cands
+	for round := 0; round < 6 && len(active) > 0; round++ {
+		snap := ex.snapshot()
+		probe := st.clone()
+		for _, c := range active {
+			probe.assume(c.at(probe))
+		}
+		ex.probeDepth++
+		var backs []*State
+		failedRun := false
+		func() {
+			defer func() {
+				if r := recover(); r != nil {
+					if _, ok := r.(undecided); ok {
+						failedRun = true
+						return
+					}
+					panic(r)
+				}
+			}()
+			_, backs, _ = ex.loopIter(probe, ls, ghosts, pos)
+		}()
+		ex.probeDepth--
+		ex.restore(snap)
+		if failedRun {
+			return
+		}
+		var goals []*Obligation
+		var owner []int
+		for _, b := range backs {
+			for ci, c := range active {
+				goals = append(goals, &Obligation{Name: fmt.Sprintf("%s#auto[loop%d:%s]#%d", ex.Fn.Key, ord, c.name, len(goals)), Kind: "auto-inv", Func: ex.Fn.Key,
+					Facts: append([]*Term(nil), b.facts...), Goal: c.at(b), Auto: true})
+				owner = append(owner, ci)
+			}
+		}
+		ex.quickSolve(goals)
+		failed := map[int]bool{}
+		for gi, g := range goals {
+			if g.Status != "proved" {
+				failed[owner[gi]] = true
+			}
+		}
+		if len(failed) == 0 {
+			break
+		}
+		var next []autoCand
+		for ci, c := range active {
+			if !failed[ci] {
+				next = append(next, c)
+			}
+		}
+		active = next
+	}
+	for _, c := range active {
+		st.assume(c.at(st))
+		ex.autoInvs = append(ex.autoInvs, fmt.Sprintf("loop%d:%s", ord, c.name))
+	}
+}
+
+// quickSolve discharges probe obligations synchronously with a short timeout.
+func (ex *Exec) quickSolve(goals []*Obligation) {
+	if len(goals) == 0 {
+		return
+	}
+	dir := filepath.Join(verifDir, "work", "houdini", sanitizeFile(ex.Fn.Key))
+	os.MkdirAll(dir, 0o755)
+	for i, g := range goals {
+		g.File = filepath.Join(dir, fmt.Sprintf("g%d_%d.smt2", ex.houdiniSeq, i))
+		os.WriteFile(g.File, []byte(g.script(ex.globalFacts)), 0o644)
+	}
+	ex.houdiniSeq++
+	d := &Discharger{TimeoutS: 4, Seed: 1, Par: runtime.NumCPU()}
+	var wg sync.WaitGroup
+	sem := make(chan struct{}, d.Par)
+	for _, g := range goals {
+		g := g
+		wg.Add(1)
+		sem <- struct{}{}
+		go func() {
+			defer wg.Done()
+			defer func() { <-sem }()
+			d.solveFile(g, g.File)
+			os.Remove(g.File)
+		}()
+	}
+	wg.Wait()
 }
 
 func loopBodyPos(s ast.Stmt) token.Pos {
@@ -1395,4 +1607,63 @@ func registerHeapAxiomInner(inner *Term, info heapInfo, ctr *Term) {
 	if body != nil {
 		addAxiomFor(inner.op, Forall([]*Term{i}, body, []*Term{sel}))
 	}
+}
+
+// splitPending forks states on their pending split conditions (specialising
+// every term), as long as the number of paths stays small.
+func (ex *Exec) splitPending(sts []*State) []*State {
+	var out []*State
+	for _, st := range sts {
+		work := []*State{st}
+		for len(work) > 0 {
+			cur := work[0]
+			work = work[1:]
+			if len(cur.pendingSplits) == 0 || len(out)+len(work) >= maxPaths {
+				cur.pendingSplits = nil
+				out = append(out, cur)
+				continue
+			}
+			c := cur.pendingSplits[0]
+			cur.pendingSplits = cur.pendingSplits[1:]
+			work = append(work, cur.specialize(c, true), cur.specialize(c, false))
+		}
+	}
+	return out
+}
+
+// mergeClosest reduces the number of paths to at most max by repeatedly merging
+// the two states that share the longest common prefix of facts (i.e. that were
+// forked most recently), so that the resulting ite terms stay local.
+func mergeClosest(sts []*State, max int) []*State {
+	common := func(a, b *State) int {
+		n := len(a.facts)
+		if len(b.facts) < n {
+			n = len(b.facts)
+		}
+		for i := 0; i < n; i++ {
+			if a.facts[i] != b.facts[i] {
+				return i
+			}
+		}
+		return n
+	}
+	for len(sts) > max {
+		bi, bj, best := 0, 1, -1
+		for i := 0; i < len(sts); i++ {
+			for j := i + 1; j < len(sts); j++ {
+				if c := common(sts[i], sts[j]); c > best {
+					bi, bj, best = i, j, c
+				}
+			}
+		}
+		m := mergeMany([]*State{sts[bi], sts[bj]}, best)
+		var next []*State
+		for k, s := range sts {
+			if k != bi && k != bj {
+				next = append(next, s)
+			}
+		}
+		sts = append(next, m)
+	}
+	return sts
 }
